@@ -27,6 +27,23 @@ fn cmd_prover(trace: bool, prog: &str, lim: &str) -> String {
     if trace { format!("{head}|{recs}") } else { head }
 }
 
+// proverrules: the rules (slot, minimal signature, edge flags, rule) the prover holds when run_prover returns
+// (second cfg(bb_verif) hook, machine::verif::take_rules)
+fn cmd_proverrules(prog: &str, lim: &str) -> String {
+    let _ = machine::verif::take_rules();
+    let _ = machine::run_prover(prog, lim.parse().unwrap());
+    let _ = machine::verif::take_apps();
+    let rules = machine::verif::take_rules();
+    let recs = rules
+        .iter()
+        .map(|(slot, (sig, (lex, rex)), rule)| {
+            format!("{},{} {} {}{} {}", slot.0, slot.1, field_of_sig(sig), b2s(*lex), b2s(*rex), field_of_rule(rule))
+        })
+        .collect::<Vec<_>>()
+        .join(";");
+    format!("{}|{}|{}", rules.len(), fnv(&recs), recs)
+}
+
 // Diagnostic: where does run_prover panic?  (file:line of the panic site; the
 // model runner classifies its own Panic with the same labels.)  The hook is
 // silent like the one of main.rs and records the location per thread.
@@ -60,6 +77,7 @@ pub fn dispatch(fields: &[&str]) -> Option<String> {
         ["prover", prog, lim] => Some(cmd_prover(false, prog, lim)),
         ["provertrace", prog, lim] => Some(cmd_prover(true, prog, lim)),
         ["proverwhy", prog, lim] => Some(cmd_proverwhy(prog, lim)),
+        ["proverrules", prog, lim] => Some(cmd_proverrules(prog, lim)),
         _ => None,
     }
 }
